@@ -1,0 +1,6 @@
+//go:build !verif && !noquotas
+// +build !verif,!noquotas
+
+package runtime
+
+func verifOnTerminate(m *runtimeContextManager) {}
